@@ -22,6 +22,7 @@ TOP = ("top", None)
 GE_CAP = 4
 CONST_CAP = 3
 CONFIG_CAP = 400
+ALIAS_BASE = -100000  # env keys <= ALIAS_BASE: ("alias", src local, src path) for local ALIAS_BASE - key
 DEBUG_BLOWUP = False
 
 
@@ -353,12 +354,17 @@ class Engine:
             return av
         return av
 
-    def write(self, env, l, path, new):
+    def write(self, env, l, path, new, narrow=False):
         env = dict(env)
         if not path:
             env[l] = new
         else:
             env[l] = self.update(env.get(l, TOP), path, new)
+        if not narrow and l >= 0:
+            # a new value: copies of / from this local are no longer the same value
+            for k in [k for k in env if k <= ALIAS_BASE]:
+                if ALIAS_BASE - k == l or env[k][1] == l:
+                    del env[k]
         return env
 
     def refine(self, env, state, l, path, new, where):
@@ -368,7 +374,14 @@ class Engine:
             av = self.read(env, l, path[:i])
             if av[0] == "e" and av[3]:
                 tagged_before.append((i, av))
-        env = self.write(env, l, path, new)
+        env = self.write(env, l, path, new, narrow=True)
+        ak = ALIAS_BASE - l
+        if not path and l >= 0 and ak in env and new[0] == "byte":
+            # l is an unmodified copy of a byte inside a look-ahead answer: what is learnt about the copy holds for the answer
+            _, sl, sp = env[ak]
+            src = self.read(env, sl, sp)
+            if src[0] == "byte" and (src[1] & new[1]) != src[1]:
+                env, state = self.refine(env, state, sl, sp, ("byte", src[1] & new[1]), where)
         for i, old in tagged_before:
             now = self.read(env, l, path[:i])
             if now != old and now[0] == "e":
@@ -727,6 +740,14 @@ class Engine:
             if adt in SHAPE_ADTS and e.get("ctor_variant"):
                 return [(enum(adt, [(e["ctor_variant"], args[0] if args else None)], None), env, state)]
             return [(TOP, env, state)]
+        # 0. per-analysis primitives (typestate plug-ins may treat further functions as events)
+        xp = getattr(self.auto, "extra_prims", None)
+        if xp:
+            h = xp.get(n)
+            if h is not None:
+                return h(self, fn, bb, t, env, state, args, where, n)
+        if getattr(self.auto, "wants_calls", False):
+            state = self.auto.event(state, ("call", n, tuple(args)), where)
         # 1. primitives and models
         h = PRIMS.get(n)
         if h is not None:
@@ -834,7 +855,17 @@ class Engine:
                 li = None
             else:
                 li = live_in[bb]
-                env = {l: v for l, v in env.items() if l < 0 or l in li or l in addr}
+                keep = set()
+                if any(l <= ALIAS_BASE for l in env):
+                    # a look-ahead answer stays while a live local is an unmodified copy of its byte
+                    ch = True
+                    while ch:
+                        ch = False
+                        for l, v in env.items():
+                            if l <= ALIAS_BASE and ((ALIAS_BASE - l) in li or (ALIAS_BASE - l) in keep) and v[1] not in keep:
+                                keep.add(v[1])
+                                ch = True
+                env = {l: v for l, v in env.items() if (l < 0 and (l > ALIAS_BASE or (ALIAS_BASE - l) in li or (ALIAS_BASE - l) in keep)) or l in li or l in addr or l in keep}
             fe = (tuple(sorted(env.items(), key=lambda kv: kv[0])), skey(st))
             sb = seen.setdefault((bb, start_at), set())
             if fe in sb:
@@ -875,10 +906,28 @@ class Engine:
                                 break
                     av = self.rvalue(fn, env, rv, lhs["l"])
                     r = self.resolve(env, lhs)
+                    if r == (0, ()) and av[0] == "b" and av[1] is None and (av[2] or av[3]) and fn.locals[0].get("prim") == "bool":
+                        # an undecided test becomes the return value: decide it here, while the places it speaks
+                        # about are alive (the caller sees two outcomes, each with what it implies)
+                        for truth in (True, False):
+                            r2 = self.apply_refs(env, st, av[2] if truth else av[3], (inst_key, fn, bb))
+                            if r2 is None:
+                                continue
+                            env2 = self.write(r2[0], 0, (), ("b", truth, (), ()))
+                            work.append((("mid", bb, si + 1), env2, r2[1]))
+                        forked = True
+                        break
                     if r is not None:
                         env = self.write(env, r[0], r[1], av)
                         if -(1000 + r[0]) in env:
                             del env[-(1000 + r[0])]
+                        if rv["k"] == "use" and av[0] == "byte" and not r[1] and "c" not in rv["a"]:
+                            src = self.resolve(env, rv["a"].get("cp") or rv["a"].get("mv"))
+                            if src is not None and src[0] != r[0]:
+                                if src[1] and any(x[0] == "e" and x[3] for x in (self.read(env, src[0], src[1][:i]) for i in range(len(src[1])))):
+                                    env[ALIAS_BASE - r[0]] = ("alias", src[0], src[1])
+                                elif not src[1] and (ALIAS_BASE - src[0]) in env:
+                                    env[ALIAS_BASE - r[0]] = ("alias", src[0], ())  # copy of a copy
                 elif k == "dead":
                     if s["l"] in env:
                         env = dict(env)
